@@ -1,0 +1,39 @@
+use std::cell::Cell;
+
+use chrono::{DateTime, Utc};
+
+use crate::{CelError, CelResult};
+
+thread_local! {
+    static COMPILE_TIME: Cell<bool> = Cell::new(false);
+}
+
+/// While alive, reading the clock on this thread is an error. The compiler
+/// holds one while it evaluates constant sub-expressions, so that `now()` and
+/// `timestamp()` are never frozen into a compiled program.
+pub struct NoClockGuard {
+    prev: bool,
+}
+
+pub fn forbid_clock() -> NoClockGuard {
+    NoClockGuard {
+        prev: COMPILE_TIME.with(|c| c.replace(true)),
+    }
+}
+
+impl Drop for NoClockGuard {
+    fn drop(&mut self) {
+        COMPILE_TIME.with(|c| c.set(self.prev));
+    }
+}
+
+/// The current time, unless a constant is being evaluated by the compiler.
+pub fn now() -> CelResult<DateTime<Utc>> {
+    if COMPILE_TIME.with(|c| c.get()) {
+        Err(CelError::runtime(
+            "The clock cannot be read while compiling",
+        ))
+    } else {
+        Ok(Utc::now())
+    }
+}
